@@ -86,8 +86,8 @@ func mapProjectionToTypes(prj *dynamodb.Projection) *types.Projection {
 	}
 
 	projection := &types.Projection{
-		NonKeyAttributes: prj.NonKeyAttributes,
-		ProjectionType:   prj.ProjectionType,
+		NonKeyAttributes: cloneStrings(prj.NonKeyAttributes),
+		ProjectionType:   cloneString(prj.ProjectionType),
 	}
 
 	return projection
@@ -130,8 +130,8 @@ func mapGlobalSecondaryIndexDescriptionToDynamodb(input []types.GlobalSecondaryI
 			IndexName: gs.IndexName,
 			ItemCount: aws.Int64(gs.ItemCount),
 			Projection: &dynamodb.Projection{
-				NonKeyAttributes: gs.Projection.NonKeyAttributes,
-				ProjectionType:   gs.Projection.ProjectionType,
+				NonKeyAttributes: cloneStrings(gs.Projection.NonKeyAttributes),
+				ProjectionType:   cloneString(gs.Projection.ProjectionType),
 			},
 			KeySchema: mapKeySchemaToDynamodb(gs.KeySchema),
 		}
@@ -147,8 +147,8 @@ func mapLocalSecondaryIndexDescriptionToDynamodb(input []types.LocalSecondaryInd
 			IndexName: si.IndexName,
 			ItemCount: aws.Int64(si.ItemCount),
 			Projection: &dynamodb.Projection{
-				NonKeyAttributes: si.Projection.NonKeyAttributes,
-				ProjectionType:   si.Projection.ProjectionType,
+				NonKeyAttributes: cloneStrings(si.Projection.NonKeyAttributes),
+				ProjectionType:   cloneString(si.Projection.ProjectionType),
 			},
 			KeySchema: mapKeySchemaToDynamodb(si.KeySchema),
 		}
